@@ -1,5 +1,678 @@
-//! sim `services` — skeleton, to be filled in (see /verif/DESIGN.md section 5).
+//! sim `services`: the real `add_node`, `ServiceManager<NodeService>::{start,stop,remove,upgrade}`,
+//! `refresh_node_registry` and `NodeRegistry::{save,load}` over a simulated OS (service manager, process
+//! table, ports, users, node RPC). Each plan step is one antctl invocation: a fresh "process" that loads the
+//! registry file, acts, saves. Serves C19 (recorded lifecycle state vs. the simulated OS under failing
+//! OS/RPC calls and external events) and C20 (install definition vs. upgrade definition vs. what the real
+//! `antnode` parser makes of both).
+
+mod os;
+mod parse;
+mod oracle;
+mod c20;
+mod world;
+
+use serde::{Deserialize, Serialize};
+use simkit::{GenCtx, PropertySpec, Rng, RunReport, Sim, Tier};
+
+#[derive(Serialize, Deserialize, Clone, Debug, PartialEq)]
+pub enum PortSpec {
+    Single(u16),
+    /// inclusive range start..=end
+    Range(u16, u16),
+}
+
+#[derive(Serialize, Deserialize, Clone, Debug, PartialEq, Default)]
+pub struct PeersOpts {
+    pub first: bool,
+    pub local: bool,
+    /// number of `--peer` multiaddrs (0..=2)
+    pub addrs: u8,
+    /// number of `--network-contacts-url` values (0..=2)
+    pub urls: u8,
+    pub testnet: bool,
+    pub ignore_cache: bool,
+}
+
+/// One `antctl add` command line (only combinations antctl's own parser accepts).
+#[derive(Serialize, Deserialize, Clone, Debug, PartialEq, Default)]
+pub struct AddOpts {
+    pub count: Option<u16>,
+    pub auto_restart: bool,
+    pub auto_set_nat_flags: bool,
+    pub enable_metrics_server: bool,
+    /// index into ENV_SETS
+    pub env: Option<u8>,
+    /// 0 arbitrum-one, 1 arbitrum-sepolia, 2.. custom networks
+    pub evm: u8,
+    pub home_network: bool,
+    pub upnp: bool,
+    /// 0 default, 1 json
+    pub log_format: Option<u8>,
+    pub max_archived_log_files: Option<u32>,
+    pub max_log_files: Option<u32>,
+    pub metrics_port: Option<PortSpec>,
+    pub node_port: Option<PortSpec>,
+    pub rpc_port: Option<PortSpec>,
+    pub network_id: Option<u8>,
+    pub node_ip: Option<[u8; 4]>,
+    pub rpc_address: Option<[u8; 4]>,
+    /// index into OWNERS
+    pub owner: Option<u8>,
+    pub peers: PeersOpts,
+    /// antctl not running as root: user-level services, no service user
+    pub user_mode: bool,
+    /// index into USERS (root mode only)
+    pub user: u8,
+    /// `--data-dir-path` and `--log-dir-path` point to the same directory
+    pub same_dir: bool,
+    /// index into ADD_VERSIONS
+    pub version: u8,
+    /// index into REWARDS
+    pub rewards: u8,
+}
+
+#[derive(Serialize, Deserialize, Clone, Debug, PartialEq)]
+pub enum Sel {
+    /// no --service-name: every service that is not Removed
+    All,
+    /// --service-name of the k-th registry entry (modulo the number of entries)
+    Name(u32),
+}
+
+#[derive(Serialize, Deserialize, Clone, Debug, PartialEq)]
+#[serde(tag = "t")]
+pub enum Step {
+    Add { opts: AddOpts, fail: Vec<u32> },
+    Start { sel: Sel, interval: bool, fail: Vec<u32>, silent: bool },
+    Stop { sel: Sel, fail: Vec<u32> },
+    Remove { sel: Sel, keep_dirs: bool, fail: Vec<u32> },
+    /// `ver` indexes UPGRADE_VERSIONS; `env`: `--env` given on the upgrade command line
+    Upgrade { sel: Sel, force: bool, do_not_start: bool, ver: u8, env: Option<u8>, interval: bool, fail: Vec<u32>, silent: bool },
+    /// `antctl status`: refresh + save
+    Status { fail: Vec<u32> },
+    /// nat-detection result recorded in the registry (0 public, 1 upnp, 2 private)
+    NatDetect { status: u8 },
+    /// external: the process of a service dies
+    Kill { sel: u32 },
+    /// external: the user deletes the service definition by hand
+    ManualUninstall { sel: u32 },
+    /// external: the registry file is damaged; it must load as an error (never panic); then it is restored
+    Corrupt { how: u32 },
+}
+
+impl Step {
+    pub fn fail_mut(&mut self) -> Option<&mut Vec<u32>> {
+        match self {
+            Step::Add { fail, .. }
+            | Step::Start { fail, .. }
+            | Step::Stop { fail, .. }
+            | Step::Remove { fail, .. }
+            | Step::Upgrade { fail, .. }
+            | Step::Status { fail } => Some(fail),
+            _ => None,
+        }
+    }
+    pub fn kind(&self) -> &'static str {
+        match self {
+            Step::Add { .. } => "add",
+            Step::Start { .. } => "start",
+            Step::Stop { .. } => "stop",
+            Step::Remove { .. } => "remove",
+            Step::Upgrade { .. } => "upgrade",
+            Step::Status { .. } => "status",
+            Step::NatDetect { .. } => "nat-detect",
+            Step::Kill { .. } => "kill",
+            Step::ManualUninstall { .. } => "manual-uninstall",
+            Step::Corrupt { .. } => "corrupt",
+        }
+    }
+}
+
+#[derive(Serialize, Deserialize, Clone, Debug)]
+pub struct Plan {
+    pub property: String,
+    pub mode: String,
+    /// every prefix of the registry file is probed by Corrupt steps (thorough) instead of a sample
+    pub all_prefixes: bool,
+    /// re-run the plan with call #0, #1, #2 ... of this step failing until the index exceeds the calls made
+    pub enumerate: Option<usize>,
+    /// get_process_pid calls can be chosen as the failing call (else only the other OS/RPC calls are numbered)
+    pub pid_lookup_faults: bool,
+    pub steps: Vec<Step>,
+}
+
+pub const ENV_SETS: &[&[(&str, &str)]] = &[
+    &[("RUST_LOG", "debug")],
+    &[("A", "1"), ("B", "x y")],
+    &[("ANT_LOG", "all"), ("TMPDIR", "/var/tmp")],
+];
+pub const OWNERS: &[&str] = &["alice", "Bob_Smith", "some one", "zo\u{eb}.k", "-dash"];
+pub const USERS: &[&str] = &["root", "daemon", "nobody"];
+pub const ADD_VERSIONS: &[&str] = &["0.1.0", "0.2.0"];
+pub const UPGRADE_VERSIONS: &[&str] = &["0.0.9", "0.1.0", "0.2.0", "0.3.0"];
+pub const REWARDS: &[&str] = &[
+    "0x03B770D9cD32077cC0bF330c13C114a87643B124",
+    "0x8464135c8F25Da09e49BC8782676a84730C318bC",
+];
+/// (rpc url, payment token address, data payments address)
+pub const CUSTOM_EVM: &[(&str, &str, &str)] = &[
+    (
+        "http://localhost:8545",
+        "0x5FbDB2315678afecb367f032d93F642f64180aa3",
+        "0x8464135c8F25Da09e49BC8782676a84730C318bC",
+    ),
+    (
+        "https://rpc.example.org/v1/key?x=1",
+        "0xe7f1725E7734CE288F8367e1Bb143E90bb3F0512",
+        "0x5FbDB2315678afecb367f032d93F642f64180aa3",
+    ),
+    (
+        "http://10.0.0.1:61611/",
+        "0x8464135c8F25Da09e49BC8782676a84730C318bC",
+        "0xe7f1725E7734CE288F8367e1Bb143E90bb3F0512",
+    ),
+];
+pub const PEER_ADDRS: &[&str] = &[
+    "/ip4/10.1.2.3/udp/1200/quic-v1/p2p/12D3KooWRi6wF7yxWLuPSNskXc6kQ5cJ6eaymeMbCRdTnMesPgFx",
+    "/ip4/192.168.7.7/udp/40123/quic-v1/p2p/12D3KooWSBTB1jzXPyBZQo6kTj2wfgFvHnvYMCsn4beqRNhk2t2v",
+];
+pub const CONTACT_URLS: &[&str] = &[
+    "https://sn-testnet.example.org/contacts",
+    "http://10.9.8.7/bootstrap_cache.json",
+];
+
+pub struct ServicesSim;
+
+fn gen_port(rng: &mut Rng, base: u16, count: u16, exact: bool) -> PortSpec {
+    let start = base + rng.below(6) as u16;
+    // mostly a spec that matches the count (anything else is refused by validation before any work)
+    let n = if exact || rng.chance(9, 10) { count } else { rng.range(1, 3) as u16 };
+    if n <= 1 {
+        PortSpec::Single(start)
+    } else {
+        PortSpec::Range(start, start + n - 1)
+    }
+}
+
+/// A random `antctl add` command line. `rich`: C20 style (most options set, count small).
+fn gen_add(rng: &mut Rng, rich: bool, swarm: &Swarm) -> AddOpts {
+    let mut o = AddOpts::default();
+    let p = |rng: &mut Rng, num: u64, den: u64| rng.chance(num, den);
+    o.peers.first = swarm.first && p(rng, 1, 6);
+    o.count = if o.peers.first {
+        None // antctl: --count conflicts with --first
+    } else {
+        match rng.below(if rich { 6 } else { 5 }) {
+            0 => None,
+            1 | 4 | 5 => Some(1),
+            2 => Some(2),
+            _ => Some(3),
+        }
+    };
+    let count = o.count.unwrap_or(1);
+    o.auto_restart = p(rng, 1, 3);
+    o.auto_set_nat_flags = swarm.nat && p(rng, 1, 3);
+    o.enable_metrics_server = p(rng, 1, 4);
+    o.env = if swarm.env && p(rng, 1, 2) { Some(rng.below(ENV_SETS.len() as u64) as u8) } else { None };
+    o.evm = match rng.below(4) {
+        0 | 1 => 0,
+        2 => 1,
+        _ => 2 + rng.below(CUSTOM_EVM.len() as u64) as u8,
+    };
+    o.home_network = p(rng, 1, 4);
+    o.upnp = p(rng, 1, 4);
+    let q = if rich { 2 } else { 4 };
+    o.log_format = if p(rng, 1, q) { Some(rng.below(2) as u8) } else { None };
+    o.max_archived_log_files = if p(rng, 1, q) { Some(rng.range(1, 9) as u32) } else { None };
+    o.max_log_files = if p(rng, 1, q) { Some(rng.range(1, 9) as u32) } else { None };
+    if swarm.ports {
+        if p(rng, 1, 3) {
+            o.metrics_port = Some(gen_port(rng, 13000, count, rich));
+        }
+        if p(rng, 1, 2) {
+            o.node_port = Some(gen_port(rng, 12000, count, rich));
+        }
+        if p(rng, 1, 3) {
+            o.rpc_port = Some(gen_port(rng, 14000, count, rich));
+        }
+    }
+    o.network_id = if p(rng, 1, q) { Some(rng.range(1, 255) as u8) } else { None };
+    o.node_ip = if p(rng, 1, q) { Some([10, 0, rng.below(3) as u8, rng.range(1, 9) as u8]) } else { None };
+    o.rpc_address = if p(rng, 1, 5) { Some([127, 0, 0, rng.range(2, 4) as u8]) } else { None };
+    o.owner = if p(rng, 1, q) {
+        // the leading-hyphen owner only rarely: `antctl add --owner=-dash` is accepted by antctl
+        let k = rng.below(21);
+        Some(if k == 20 { 4 } else { (k % 4) as u8 })
+    } else {
+        None
+    };
+    if !o.peers.first {
+        o.peers.addrs = if p(rng, 1, 3) { rng.range(1, 2) as u8 } else { 0 };
+        o.peers.local = p(rng, 1, 5);
+        // antctl: --local conflicts with --network-contacts-url
+        o.peers.urls = if !o.peers.local && p(rng, 1, 4) { rng.range(1, 2) as u8 } else { 0 };
+    } else {
+        o.peers.local = p(rng, 1, 3);
+    }
+    o.peers.testnet = p(rng, 1, 4);
+    o.peers.ignore_cache = p(rng, 1, 4);
+    o.user_mode = swarm.user_mode;
+    o.user = rng.below(USERS.len() as u64) as u8;
+    o.same_dir = swarm.same_dir;
+    o.version = rng.below(ADD_VERSIONS.len() as u64) as u8;
+    o.rewards = rng.below(REWARDS.len() as u64) as u8;
+    o
+}
+
+/// Per-run knobs drawn first (swarm testing).
+struct Swarm {
+    first: bool,
+    nat: bool,
+    env: bool,
+    ports: bool,
+    user_mode: bool,
+    same_dir: bool,
+}
+
+fn gen_swarm(rng: &mut Rng) -> Swarm {
+    Swarm {
+        first: rng.chance(1, 3),
+        nat: rng.chance(1, 3),
+        env: rng.chance(2, 3),
+        ports: rng.chance(3, 4),
+        user_mode: rng.chance(1, 2),
+        same_dir: rng.chance(1, 6),
+    }
+}
+
+fn gen_fail(rng: &mut Rng, fault: bool, p_num: u64, max_idx: u64) -> Vec<u32> {
+    if !fault || !rng.chance(p_num, 10) {
+        return vec![];
+    }
+    let a = rng.below(max_idx) as u32;
+    if rng.chance(1, 5) {
+        let b = rng.below(max_idx + 2) as u32;
+        if b != a {
+            return vec![a, b];
+        }
+    }
+    vec![a]
+}
+
+fn gen_sel(rng: &mut Rng) -> Sel {
+    if rng.chance(2, 5) {
+        Sel::All
+    } else {
+        Sel::Name(rng.below(8) as u32)
+    }
+}
+
+fn gen_c19(rng: &mut Rng, ctx: &GenCtx) -> Plan {
+    let fault = ctx.mode == "fault";
+    let swarm = gen_swarm(rng);
+    let n_steps = match ctx.tier {
+        Tier::Quick => rng.urange(4, 22),
+        Tier::Thorough => rng.urange(4, 36),
+    };
+    let w_add = rng.range(4, 14);
+    let w_start = rng.range(6, 20);
+    let w_stop = rng.range(3, 14);
+    let w_remove = if rng.chance(4, 5) { rng.range(1, 10) } else { 0 };
+    let w_upgrade = if rng.chance(4, 5) { rng.range(2, 12) } else { 0 };
+    let w_status = rng.range(0, 5);
+    let w_nat = if swarm.nat { 2 } else { 0 };
+    let w_kill = if fault { rng.range(0, 8) } else { 0 };
+    let w_manual = if fault && rng.chance(1, 2) { rng.range(1, 4) } else { 0 };
+    let w_corrupt = if fault && rng.chance(1, 2) { rng.range(1, 3) } else { 0 };
+    let p_fail = if fault { rng.range(1, 6) } else { 0 };
+    let pid_lookup_faults = fault && rng.chance(1, 3);
+    let weights = [
+        w_add, w_start, w_stop, w_remove, w_upgrade, w_status, w_nat, w_kill, w_manual, w_corrupt,
+    ];
+    let mut steps = vec![];
+    if swarm.nat && rng.chance(2, 3) {
+        steps.push(Step::NatDetect { status: rng.below(3) as u8 });
+    }
+    steps.push(Step::Add {
+        opts: gen_add(rng, false, &swarm),
+        fail: gen_fail(rng, fault, p_fail.min(3), 8),
+    });
+    for _ in 0..n_steps {
+        let s = match rng.weighted(&weights) {
+            0 => Step::Add {
+                opts: gen_add(rng, false, &swarm),
+                fail: gen_fail(rng, fault, p_fail, 9),
+            },
+            1 => Step::Start {
+                sel: gen_sel(rng),
+                interval: rng.chance(1, 3),
+                fail: gen_fail(rng, fault, p_fail, 12),
+                silent: fault && rng.chance(1, 12),
+            },
+            2 => Step::Stop {
+                sel: gen_sel(rng),
+                fail: gen_fail(rng, fault, p_fail, 8),
+            },
+            3 => Step::Remove {
+                sel: gen_sel(rng),
+                keep_dirs: rng.chance(1, 3),
+                fail: gen_fail(rng, fault, p_fail, 8),
+            },
+            4 => Step::Upgrade {
+                sel: gen_sel(rng),
+                force: rng.chance(1, 3),
+                do_not_start: rng.chance(1, 3),
+                ver: rng.below(UPGRADE_VERSIONS.len() as u64) as u8,
+                env: if rng.chance(1, 5) { Some(rng.below(ENV_SETS.len() as u64) as u8) } else { None },
+                interval: rng.chance(1, 3),
+                fail: gen_fail(rng, fault, p_fail, 14),
+                silent: fault && rng.chance(1, 12),
+            },
+            5 => Step::Status {
+                fail: gen_fail(rng, fault, p_fail, 4),
+            },
+            6 => Step::NatDetect { status: rng.below(3) as u8 },
+            7 => Step::Kill { sel: rng.below(8) as u32 },
+            8 => Step::ManualUninstall { sel: rng.below(8) as u32 },
+            _ => Step::Corrupt { how: rng.below(1 << 16) as u32 },
+        };
+        steps.push(s);
+    }
+    steps.push(Step::Status { fail: vec![] });
+    // enumeration of the failing call index of one operation (all runs in thorough, a few in quick)
+    let enumerate = if fault && (ctx.tier == Tier::Thorough || rng.chance(1, 8)) {
+        let ops: Vec<usize> = steps
+            .iter()
+            .enumerate()
+            .filter(|(_, s)| matches!(s, Step::Add { .. } | Step::Start { .. } | Step::Stop { .. } | Step::Remove { .. } | Step::Upgrade { .. }))
+            .map(|(i, _)| i)
+            .collect();
+        if ops.is_empty() { None } else { Some(*rng.pick(&ops)) }
+    } else {
+        None
+    };
+    Plan {
+        property: ctx.property.clone(),
+        mode: ctx.mode.clone(),
+        all_prefixes: ctx.tier == Tier::Thorough,
+        enumerate,
+        pid_lookup_faults,
+        steps,
+    }
+}
+
+fn gen_c20(rng: &mut Rng, ctx: &GenCtx) -> Plan {
+    let faulty = ctx.mode == "faulty-lifecycle";
+    let mut swarm = gen_swarm(rng);
+    swarm.first = rng.chance(1, 4);
+    swarm.ports = true;
+    let mut steps = vec![];
+    let a = gen_add(rng, true, &swarm);
+    if a.auto_set_nat_flags || rng.chance(1, 6) {
+        // auto-set-nat-flags without a recorded NAT status is refused by add_node; mostly record one first
+        if rng.chance(9, 10) {
+            steps.push(Step::NatDetect { status: rng.below(3) as u8 });
+        }
+    }
+    let f = |rng: &mut Rng, max: u64| -> Vec<u32> {
+        if faulty && rng.chance(1, 3) { vec![rng.below(max) as u32] } else { vec![] }
+    };
+    steps.push(Step::Add { opts: a, fail: f(rng, 6) });
+    if rng.chance(1, 3) {
+        // a second add command (other options, other environment) before anything is upgraded
+        let mut b = gen_add(rng, true, &swarm);
+        b.peers.first = false;
+        steps.push(Step::Add { opts: b, fail: f(rng, 6) });
+    }
+    if rng.chance(2, 3) {
+        steps.push(Step::Start {
+            sel: gen_sel(rng),
+            interval: rng.chance(1, 2),
+            fail: f(rng, 8),
+            silent: faulty && rng.chance(1, 10),
+        });
+        if faulty && rng.chance(1, 3) {
+            steps.push(Step::Kill { sel: rng.below(4) as u32 });
+        }
+        if rng.chance(1, 2) {
+            steps.push(Step::Stop { sel: gen_sel(rng), fail: f(rng, 6) });
+        }
+    }
+    if rng.chance(1, 4) {
+        steps.push(Step::Status { fail: vec![] });
+    }
+    if faulty && rng.chance(1, 2) {
+        // an upgrade attempt that fails half way, before the one that goes through
+        steps.push(Step::Upgrade {
+            sel: Sel::All,
+            force: true,
+            do_not_start: rng.chance(1, 2),
+            ver: rng.range(1, 3) as u8,
+            env: None,
+            interval: rng.chance(1, 2),
+            fail: vec![rng.below(10) as u32],
+            silent: false,
+        });
+    }
+    let n_up = if rng.chance(1, 4) { 2 } else { 1 };
+    for i in 0..n_up {
+        steps.push(Step::Upgrade {
+            sel: if rng.chance(3, 4) { Sel::All } else { Sel::Name(rng.below(4) as u32) },
+            force: i > 0 || rng.chance(1, 2),
+            do_not_start: rng.chance(1, 3),
+            ver: 3,
+            env: if rng.chance(1, 6) { Some(rng.below(ENV_SETS.len() as u64) as u8) } else { None },
+            interval: rng.chance(1, 2),
+            fail: vec![],
+            silent: false,
+        });
+        if i == 0 && n_up == 2 && rng.chance(1, 2) {
+            steps.push(Step::Stop { sel: Sel::All, fail: vec![] });
+        }
+    }
+    Plan {
+        property: ctx.property.clone(),
+        mode: ctx.mode.clone(),
+        all_prefixes: false,
+        enumerate: None,
+        pid_lookup_faults: faulty && rng.chance(1, 4),
+        steps,
+    }
+}
+
+/// Simpler variants of an add command line: one non-default option reset at a time.
+fn simpler_adds(o: &AddOpts) -> Vec<AddOpts> {
+    let d = AddOpts {
+        user_mode: o.user_mode,
+        user: o.user,
+        ..AddOpts::default()
+    };
+    let mut out = vec![];
+    macro_rules! reset {
+        ($($f:ident).+) => {
+            if o.$($f).+ != d.$($f).+ {
+                let mut c = o.clone();
+                c.$($f).+ = d.$($f).+.clone();
+                out.push(c);
+            }
+        };
+    }
+    if *o != d {
+        out.push(d.clone());
+    }
+    reset!(count);
+    reset!(auto_restart);
+    reset!(auto_set_nat_flags);
+    reset!(enable_metrics_server);
+    reset!(env);
+    reset!(evm);
+    reset!(home_network);
+    reset!(upnp);
+    reset!(log_format);
+    reset!(max_archived_log_files);
+    reset!(max_log_files);
+    reset!(metrics_port);
+    reset!(node_port);
+    reset!(rpc_port);
+    reset!(network_id);
+    reset!(node_ip);
+    reset!(rpc_address);
+    reset!(owner);
+    reset!(peers.first);
+    reset!(peers.local);
+    reset!(peers.addrs);
+    reset!(peers.urls);
+    reset!(peers.testnet);
+    reset!(peers.ignore_cache);
+    reset!(same_dir);
+    reset!(version);
+    reset!(rewards);
+    if o.user_mode {
+        let mut c = o.clone();
+        c.user_mode = false;
+        c.user = 0;
+        out.push(c);
+    }
+    out
+}
+
+impl Sim for ServicesSim {
+    type Plan = Plan;
+    const NAME: &'static str = "services";
+
+    fn properties() -> Vec<PropertySpec> {
+        vec![
+            PropertySpec {
+                id: "C19",
+                level: "exploration",
+                modes: vec!["nofault", "fault"],
+                quick_runs: 12_000,
+                thorough_runs: 150_000,
+                rule: "One run = one seeded sequence of antctl invocations (add with random option vectors and counts 1..3, start, stop, remove, upgrade, status, by name or for all services), each executed as a fresh process: NodeRegistry::load from a real file, the real refresh_node_registry / add_node / ServiceManager<NodeService>::{start,stop,remove,upgrade}, save. All OS and RPC effects go to a simulated OS behind the repo's own ServiceControl / RpcActions traits. Mode fault adds: call #n (and sometimes #m) of an operation's ServiceControl/RpcActions calls fails with an error the real implementation returns, a launch that silently produces no process, external process death, manual removal of a service definition, and registry-file corruption between invocations; in the thorough tier (and 1/8 of quick fault runs) the failing call index of one operation per run is enumerated 0,1,2,... until it exceeds the calls made (inner evaluations). After every invocation the registry file is compared with the simulated OS. Non-trivial = >=3 operations and >=1 fault fired; distinct = distinct fingerprint of the executed operation kinds, results and fired faults.",
+                assumptions: vec![
+                    "the antctl glue in ant-node-manager/src/cmd/node.rs (load registry, refresh, select services, operate, save on the same conditions) is mirrored step for step by the harness because it hard-wires the real ServiceController and RpcClient; the fixed-interval std::thread::sleep of that glue is skipped",
+                    "`antctl status` is mirrored with full_refresh=false: the full refresh path of refresh_node_registry constructs a real RpcClient internally (no seam)",
+                    "ServiceControl::wait (std::thread::sleep of 3 s in the real implementation) is simulated time only",
+                    "an injected get_process_pid failure is ServiceProcessNotFound for a live process (what the real sysinfo scan yields when the exe link is unreadable)",
+                    "OS-assigned ports are never reused by the simulated OS; user-requested node/metrics/rpc ports come from disjoint small pools so collisions happen only between add commands",
+                    "externally killed processes stay dead (no auto-restart by the simulated service manager)",
+                ],
+            },
+            PropertySpec {
+                id: "C20",
+                level: "exploration",
+                modes: vec!["plain", "faulty-lifecycle"],
+                quick_runs: 5_000,
+                thorough_runs: 60_000,
+                rule: "One run = one seeded antctl add option vector (network selection incl. custom EVM, node/metrics/rpc ports and ranges, node ip, rpc address, peers arguments within antctl's own conflict rules, log format and retention, owner, home-network/UPnP/auto NAT flags, user mode or service user, environment, auto-restart, count 1..3), optionally a second add command, then [start -> (kill) -> stop], status, and one or two upgrades (forced or to a higher version, started or not, with or without --env), each as a fresh process from the saved registry; mode faulty-lifecycle injects failing OS/RPC calls into the steps before the final upgrade, including an upgrade attempt that fails half way. The simulated OS records every ServiceInstallCtx; program, user, label, working directory, contents, environment, autostart are compared field by field and both argument lists are given to the real antnode binary (guarded print-and-exit hook) whose parsed options and derived EVM network / socket address must be equal between install and upgrade (except the port pinned after a start) and equal to the configuration intended by the add command. Non-trivial = >=3 operations and >=1 fault fired (faulty-lifecycle); distinct = distinct fingerprint of operation kinds, results, fired faults and option vector.",
+                assumptions: vec![
+                    "option vectors are restricted to those antctl's command line accepts (--first excludes --peer/--network-contacts-url/--count, --local excludes --network-contacts-url, evm-local needs the local feature)",
+                    "the antnode binary at $ANTNODE_VERIF_BIN is built from the same working tree with --cfg maidsafe_safe_network_verif; its hook prints after the real Opt::parse(), rewards-address and EVM-network derivation and exits before anything is started",
+                    "upgrade environment: antctl passes --env if given, else the registry-wide environment_variables; auto_restart is hard-wired to false by cmd/node.rs::upgrade (mirrored)",
+                    "the glue mirrored as for C19",
+                ],
+            },
+        ]
+    }
+
+    fn generate(rng: &mut Rng, ctx: &GenCtx) -> Plan {
+        match ctx.property.as_str() {
+            "C20" => gen_c20(rng, ctx),
+            _ => gen_c19(rng, ctx),
+        }
+    }
+
+    fn execute(plan: &Plan, entropy: u64) -> RunReport {
+        world::execute(plan, entropy)
+    }
+
+    fn shrink(plan: &Plan) -> Vec<Plan> {
+        let mut out = vec![];
+        if let Some(s) = plan.enumerate {
+            // make the enumerated failing index explicit first
+            for i in 0..24u32 {
+                let mut p = plan.clone();
+                p.enumerate = None;
+                if let Some(f) = p.steps.get_mut(s).and_then(|st| st.fail_mut()) {
+                    *f = vec![i];
+                    out.push(p);
+                }
+            }
+            let mut p = plan.clone();
+            p.enumerate = None;
+            out.push(p);
+            return out;
+        }
+        for steps in simkit::shrink::remove_chunks(&plan.steps) {
+            let mut p = plan.clone();
+            p.steps = steps;
+            out.push(p);
+        }
+        for steps in simkit::shrink::simplify_each(&plan.steps, |s| {
+            let mut v = vec![];
+            let mut c = s.clone();
+            if let Some(f) = c.fail_mut() {
+                if !f.is_empty() {
+                    if f.len() > 1 {
+                        for i in 0..f.len() {
+                            let mut c2 = s.clone();
+                            c2.fail_mut().expect("fail").remove(i);
+                            v.push(c2);
+                        }
+                    }
+                    f.clear();
+                    v.push(c);
+                }
+            }
+            match s {
+                Step::Start { sel, interval, fail, silent: true } => v.push(Step::Start {
+                    sel: sel.clone(),
+                    interval: *interval,
+                    fail: fail.clone(),
+                    silent: false,
+                }),
+                Step::Upgrade { sel, force, do_not_start, ver, env, interval, fail, silent } => {
+                    if *silent {
+                        v.push(Step::Upgrade { sel: sel.clone(), force: *force, do_not_start: *do_not_start, ver: *ver, env: *env, interval: *interval, fail: fail.clone(), silent: false });
+                    }
+                    if env.is_some() {
+                        v.push(Step::Upgrade { sel: sel.clone(), force: *force, do_not_start: *do_not_start, ver: *ver, env: None, interval: *interval, fail: fail.clone(), silent: *silent });
+                    }
+                    if !*do_not_start {
+                        v.push(Step::Upgrade { sel: sel.clone(), force: *force, do_not_start: true, ver: *ver, env: *env, interval: *interval, fail: fail.clone(), silent: *silent });
+                    }
+                }
+                Step::Add { opts, fail } => {
+                    for o in simpler_adds(opts) {
+                        v.push(Step::Add { opts: o, fail: fail.clone() });
+                    }
+                }
+                _ => {}
+            }
+            v
+        }) {
+            let mut p = plan.clone();
+            p.steps = steps;
+            out.push(p);
+        }
+        out
+    }
+
+    fn components() -> Vec<(&'static str, &'static str)> {
+        vec![
+            ("add_node, InstallNodeServiceCtxBuilder, port/count validation helpers", "real"),
+            ("ServiceManager<NodeService>::{start, stop, remove, upgrade}, NodeService (on_start/on_stop/on_remove, build_upgrade_install_context)", "real"),
+            ("refresh_node_registry (partial refresh), NodeRegistry::{save, load}", "real, real registry file in a per-run tmpfs directory"),
+            ("data/log directories, service binaries, upgrade binary", "real small files and directories (create_owned_dir chowns to existing system users)"),
+            ("antctl command glue (ant-node-manager/src/cmd/node.rs: add/start/stop/remove/upgrade/status)", "mirrored step for step by the harness, not run (hard-wires ServiceController and RpcClient)"),
+            ("service-manager crate / systemd, process table (sysinfo), port allocation, user creation", "stub: simulated OS behind the existing ServiceControl trait"),
+            ("node admin RPC (tonic client)", "stub: simulated behind the existing RpcActions trait, consistent with the simulated process table"),
+            ("antnode argument parser (clap Opt, EvmNetworkCommand, PeersArgs) and rewards-address / EVM-network derivation", "real binary built from the working tree, guarded print-and-exit hook (C20)"),
+            ("download of release binaries, get_bin_version", "stub: local files, version strings from the plan"),
+        ]
+    }
+}
+
 fn main() {
-    eprintln!("HARNESS-ERROR: sim services not built yet");
-    std::process::exit(2);
+    simkit::check::main::<ServicesSim>();
 }
